@@ -114,6 +114,22 @@ theorem C11_from_str_factors (Z : Zlib) (s : Bytes) (m : Machine) (h : fromStr Z
       Codec.decodeMachine raw = some m ∧ Validate.machine m = true :=
   fromStr_ok h
 
+/-- What the model can say about sizes (heap use itself is outside the model): the compressed form
+    is at most 3/4 of the string; if the read honours its buffer (`Z.Bounded`) at most
+    `MAX_DECOMPRESSED_SIZE` bytes reach bincode; and the accepted machine has no more states than
+    bincode was given bytes — whatever the length prefix inside the data claims. -/
+theorem C11_stage_sizes (Z : Zlib) (hB : Z.Bounded) (s : Bytes) (m : Machine) (h : fromStr Z s = .ok m) :
+    ∃ compressed raw, B64.dec (s.drop 2) = some compressed ∧ Z.readOnce compressed = some raw ∧
+      Codec.decodeMachine raw = some m ∧ 4 * compressed.length ≤ 3 * s.length ∧ raw.length ≤ MAX ∧
+      m.states.length ≤ MAX := by
+  obtain ⟨c, raw, _, _, _, hc, hr, hm, _⟩ := fromStr_ok h
+  have h1 := B64.dec_length _ _ hc
+  have h2 := hB _ _ hr
+  have h3 := Codec.decodeMachine_states_le hm
+  refine ⟨c, raw, hc, hr, hm, ?_, h2, by omega⟩
+  simp only [List.length_drop] at h1
+  omega
+
 /-- The checked slices of `from_str` never fail: it computes the slice-free `fromStrPure`. -/
 theorem C11_from_str_slices_in_range (Z : Zlib) (s : Bytes) : fromStr Z s = fromStrPure Z s :=
   fromStr_eq_pure Z s
